@@ -228,6 +228,7 @@ def printer_correspondence(ck, binpath, n_real, n_gen, maxir, seed_off=0, client
     d["corr_ir_constructors"] = hist
     d["corr_real_origins"] = {o: sum(1 for c in cases if c.get("origin") == o) for o in sorted({c.get("origin") for c in cases if c.get("origin")})}
     nclient = 0
+    ninterleave = 0
     for i in (failing or [])[:12]:
         c = cases[i]
         rc2, dout = ck.coq_eval("diag_%d" % i, "Local Open Scope N_scope.\nEval vm_compute in (diagnose %s).\n" % printer_case_term(c),
@@ -253,10 +254,15 @@ def printer_correspondence(ck, binpath, n_real, n_gen, maxir, seed_off=0, client
             for v in viols:
                 ck.violation(v["signature"], "%s [IR builder obligation failed: %s]" % (v["what"], "; ".join(what)),
                              {"text": c["src"], "cfg": c.get("cfg", {}), "origin": c.get("origin"), "name": c.get("name")})
+        elif parts[1] == "1" and parts[2] == "1":
+            # only the character-level comparison atoms(IR) vs source text differs while the property oracle (tokens with the
+            # enabled normalisations, comment texts) accepts the output: the IR interleaves comments and code (or places a
+            # dropped/normalised separator) differently from the source, which the property does not constrain
+            ninterleave += 1
         else:
-            ck.tie_broken("C05 client obligation failed on a real IR (%s) but the property oracle accepts the output: the coarse "
-                          "character-level normalisation set of the check is wrong for this input" % "; ".join(what),
+            ck.tie_broken("C05 client obligation failed on a real IR (%s) but the property oracle accepts the output" % "; ".join(what),
                           json.dumps({k: c[k] for k in c if k != "ir"})[:3000])
+    d["corr_real_irs_with_comment_code_interleaving_different_from_source"] = ninterleave
     d["corr_real_irs_failing_client_obligations"] = len([i for i in (failing or []) if cases[i]["kind"] == "real"])
     if cases:
         c = next((x for x in cases if x["kind"] == "real"), cases[0])
